@@ -25,6 +25,24 @@ pub fn roundtrip(vt: &VT, shape: &Shape, v: &Value, suffix: &[u8]) -> Result<Opt
 			if shape.normalize(&d.value) != shape.normalize(v) {
 				return Err(format!("round trip changed the value: {} -> {}", value_short(v), value_short(&d.value)));
 			}
+			// the same bytes arriving one at a time through a reader (short encodings only)
+			if enc.len() <= 96 {
+				let mut tr = subjects::inputs::ChunkReader::trickle(&enc);
+				let r = guarded(|| (vt.decode_io)(&mut tr)).map_err(|p| format!("decode from a one-byte-at-a-time reader panicked: {}", p))?;
+				match r {
+					Ok(v2) =>
+						if tr.pos != n || shape.normalize(&v2) != shape.normalize(v) {
+							return Err(format!(
+								"round trip through a one-byte-at-a-time reader: {} -> {} consuming {} of {}",
+								value_short(v),
+								value_short(&v2),
+								tr.pos,
+								n
+							));
+						},
+					Err(e) => return Err(format!("decode of own encoding from a one-byte-at-a-time reader failed: {}", e)),
+				}
+			}
 			Ok(Some(n))
 		},
 	}
